@@ -398,7 +398,12 @@ fn real_login_inner(i: &LoginInput) -> Result<(RealLogin, SrpServer, wow_srp::cl
     let rp = NormalizedString::new(i.reg_pass).map_err(refuse)?;
     let tu = NormalizedString::from_string(i.typed_user.to_string()).map_err(refuse)?;
     let tp = <NormalizedString as std::convert::TryFrom<String>>::try_from(i.typed_pass.to_string()).map_err(refuse)?;
-    let verifier = catch(|| SrpVerifier::from_username_and_password(ru, rp)).map_err(|m| LoginFail::Panic("register", m))?;
+    let verifier = catch(|| {
+        // credentials reach the library as copies of what the application holds (Clone is part of their public behaviour)
+        let (ru2, rp2) = (ru.clone(), rp.clone());
+        drop((ru, rp));
+        SrpVerifier::from_username_and_password(ru2, rp2)
+    }).map_err(|m| LoginFail::Panic("register", m))?;
     let username_out = verifier.username().to_string();
     let v = *verifier.password_verifier();
     let salt = *verifier.salt();
